@@ -196,6 +196,19 @@ func (qt *quotaTopology) checkParentQuotaInfo(quotaName, parentName string) erro
 		if !parentInfo.IsParent {
 			return fmt.Errorf("%v has parentName %v but the parentQuotaInfo's IsParent is false", quotaName, parentName)
 		}
+		// the quota must not become its own ancestor: walk up from the new parent (bounded, in case the recorded
+		// topology is already damaged)
+		ancestor := parentName
+		for steps := 0; ancestor != extension.RootQuotaName && steps <= len(qt.quotaInfoMap); steps++ {
+			if ancestor == quotaName {
+				return fmt.Errorf("%v has parentName %v which is the quota itself or one of its descendants", quotaName, parentName)
+			}
+			ancestorInfo, exist := qt.quotaInfoMap[ancestor]
+			if !exist {
+				break
+			}
+			ancestor = ancestorInfo.ParentName
+		}
 	}
 	return nil
 }
